@@ -8,6 +8,8 @@
 package protobuf
 
 import (
+	"io"
+
 	"perun.network/go-perun/channel"
 	"perun.network/go-perun/wallet"
 )
@@ -69,4 +71,14 @@ func verifPBWalletAddrKey(id wallet.BackendID, a wallet.Address) (y map[wallet.B
 	}
 	y, toErr = ToWalletAddr(p)
 	return y, nil, toErr
+}
+
+// The protobuf frame: a 16-bit big-endian length and the marshalled envelope (byte-level lemma, like the ones of package perunio).
+func verifPBFrame(w io.Writer, r io.Reader, env *Envelope) (y *Envelope, wErr, rErr error) {
+	wErr = writeEnvelope(w, env)
+	if wErr != nil {
+		return nil, wErr, nil
+	}
+	y, rErr = readEnvelope(r)
+	return y, nil, rErr
 }
